@@ -619,6 +619,8 @@ func C15(e *Env) {
 	mergeLiteralRule(e, "mergeService", "Service")
 	r.Rule("R09.1", "a later file's `todo` (like every scalar attribute) overrides an earlier one: merge wiring of input.Service (shared with C09)", 11)
 	r.Rule("R09.1c", "behaviour classes of the merge combinators (shared with C09)", 4)
+	c03Shapes(e, "R03.7")
+	r.Rule("R03.7", "engine F: the function token emits callProvider(<fn>[, <arguments>]) with the argument text verbatim (shared with C03): a re-assembled argument list rewrites the message of %todo(\"…\")%", 5)
 	c03ToExpr(e)
 	r.Rule("R03.2", "toExpr strips exactly the two delimiters, in runes (shared with C03): cut by a byte index, a %todo(\"…\")% whose message is not ASCII loses its tail, is not recognised as a function token and the build is rejected", 1)
 	c15Builtins(e)
